@@ -172,6 +172,21 @@ def pdf(fam, par, x):
     raise KeyError(fam)
 
 
+def pdf_at_zero_knife_edge(fam, par):
+    """Exponentiated Weibull / generalised gamma at x = 0: the exponent of x in the documented pdf is
+    e = beta*delta - 1 resp. c*m - 1.  If it is 0 in double arithmetic but not for the doubles taken as
+    exact numbers (100 * 0.01 = 1 + 2e-17), the value for e = 0 is returned (else None): the
+    boundary value is then not resolved by the parameters."""
+    p = _m(par)
+    if fam == "ExpWeibull":
+        e = p["beta"] * p["delta"] - 1
+        return p["beta"] * p["delta"] / p["alpha"] if e != 0 and abs(e) <= M("1e-15") else None
+    if fam == "GenGamma":
+        e = p["c"] * p["m"] - 1
+        return p["c"] * p["lambda_"] / mp.gamma(p["m"]) if e != 0 and abs(e) <= M("1e-15") else None
+    return None
+
+
 def vonmises_cdf_by_quadrature(par, x):
     """cross-check of the Fourier form: tanh-sinh quadrature of the documented pdf"""
     p = _m(par)
@@ -201,9 +216,17 @@ def approx_quantile(fam, par, prob):
     if fam == "Normal":
         return par["mu"] + par["sigma"] * float(sc.ndtri(q))
     if fam == "ExpWeibull":
-        return par["alpha"] * (-math.log1p(-(q ** (1.0 / par["delta"])))) ** (1.0 / par["beta"])
+        # in log space: p^(1/delta) underflows for a small delta, its beta-th root does not
+        lt = math.log(q) / par["delta"] if q > 0 else -math.inf
+        lz = lt if lt < -36 else math.log(-math.log1p(-math.exp(lt))) if lt < 0 else math.inf
+        return par["alpha"] * math.exp(lz / par["beta"])
     if fam == "GenGamma":
-        return float(sc.gammaincinv(par["m"], q)) ** (1.0 / par["c"]) / par["lambda_"]
+        # P(m, y) ~ y^m / Gamma(m + 1) for small y: ln y = (ln p + lgamma(m + 1)) / m
+        ly = (math.log(q) + math.lgamma(par["m"] + 1.0)) / par["m"] if q > 0 else -math.inf
+        if ly > -36:
+            y = float(sc.gammaincinv(par["m"], q))
+            ly = math.log(y) if y > 0 else ly
+        return math.exp(ly / par["c"]) / par["lambda_"]
     if fam == "ScipyGamma":
         return par["loc"] + par["scale"] * float(sc.gammaincinv(par["a"], q))
     if fam == "ScipyRayleigh":
